@@ -34,7 +34,7 @@ var pureExternPrefixes = []string{
 	"strings.", "fmt.Sprintf", "fmt.Sprint", "fmt.Errorf", "errors.", "math.", "math/bits.", "strconv.", "unicode.", "unicode/utf8.",
 	"encoding/hex.EncodeToString", "encoding/hex.DecodeString", "(encoding/binary.bigEndian).Uint", "(encoding/binary.littleEndian).Uint",
 	"encoding/binary.Uvarint", "encoding/binary.Varint",
-	"time.Now", "time.Since", "(time.Time).", "(time.Duration).", "time.Duration",
+	"time.", "(time.", "(*time.",
 	"crypto/sha256.Sum256", "slices.Contains", "slices.Index", "slices.Equal", "slices.Clone", "slices.Max", "slices.Min", "slices.IndexFunc", "slices.ContainsFunc",
 	"google.golang.org/protobuf/proto.Marshal", "google.golang.org/protobuf/proto.Size", "google.golang.org/protobuf/proto.Equal", "google.golang.org/protobuf/proto.Clone",
 	"(google.golang.org/protobuf/proto.MarshalOptions).Marshal",
@@ -274,8 +274,10 @@ func (e *Effects) instrWrites(tc *TypeCtx, fn *ssa.Function, in ssa.Instruction,
 		d, v := tc.MapKeys(in.Map.Type().Underlying().(*types.Map))
 		ms.Add(d)
 		ms.Add(v)
-	case *ssa.Go, *ssa.Send, *ssa.Select:
+	case *ssa.Go:
 		ms.All = true
+	case *ssa.Send, *ssa.Select:
+		// channel contents are not part of the modelled state
 	case ssa.CallInstruction:
 		c := in.Common()
 		if b, ok := c.Value.(*ssa.Builtin); ok {
